@@ -1,8 +1,8 @@
 (* Tie/Order.v — T-tie for C19: graph/graphalg/order.go Reverse (the in-place reversal IDom applies to
    the post-order) against Model/Order.v reverse.  The loop  for i, j := 0, len(xs)-1; i < j; i, j =
    i+1, j-1  is not a counting loop: gen_Reverse takes fuel; len(xs)/2 + 1 suffices.
-   PreOrder / PostOrder (recursive closures over captured mutable state), IDom (continue in nested
-   loops) and DomFrontier (goto) are outside the translator's subset. *)
+   PreOrder / PostOrder (recursive closures over captured mutable state): Tie/OrderVisit.v; IDom:
+   Tie/Dom.v; DomFrontier (goto) is outside the translator's subset. *)
 From Coq Require Import ZArith NArith List Bool Lia.
 From MM Require Import Base.Num Base.GoSem Model.Order.
 From MMGen Require Import Gen_graphalg_order.
